@@ -330,8 +330,72 @@ func refSubdivide(m *ref.IMesh) *ref.IMesh {
 // manifold (one or several components, genus 0..3), an open disc, a mix, or a
 // face subset of a certified manifold (holes, several boundary loops).
 func genManifold(rng *rand.Rand, big bool) *surface {
-	kind := rng.Intn(10)
+	kind := rng.Intn(11)
 	switch {
+	case kind == 10:
+		// open, connected, exactly one boundary loop - and not a disc: a closed surface of genus
+		// >= 1 with one connected patch cut out (a face, or a face and the faces around it), or
+		// a Moebius band
+		if rng.Intn(3) == 0 {
+			n := 5 + rng.Intn(12)
+			im := &ref.IMesh{Kind: "moebius"}
+			w := 0.2 + 0.5*rng.Float64()
+			for i := 0; i < n; i++ {
+				u := 2 * math.Pi * float64(i) / float64(n)
+				for _, v := range []float64{w, -w} {
+					im.V = append(im.V, model3d.XYZ((2+v*math.Cos(u/2))*math.Cos(u), (2+v*math.Cos(u/2))*math.Sin(u), v*math.Sin(u/2)))
+				}
+			}
+			a := func(i int) int {
+				if i == n {
+					return 1
+				}
+				return 2 * i
+			}
+			b := func(i int) int {
+				if i == n {
+					return 0
+				}
+				return 2*i + 1
+			}
+			for i := 0; i < n; i++ {
+				im.F = append(im.F, [3]int{a(i), b(i), a(i + 1)}, [3]int{b(i), b(i + 1), a(i + 1)})
+			}
+			s := finish(rng, im, fmt.Sprintf("moebius band of %d quads", n), false)
+			if !s.cert.EdgeManifold || !(s.cert.MinArea > 1e-12) {
+				return nil
+			}
+			return s
+		}
+		var im *ref.IMesh
+		var desc string
+		for try := 0; try < 20; try++ {
+			im, desc = genClosedOne(rng, false)
+			if ct := ref.Certify(im.Tris()); ct.Closed && ct.T.Components == 1 && ct.Genus() >= 1 {
+				break
+			}
+			im = nil
+		}
+		if im == nil {
+			return nil
+		}
+		seed := rng.Intn(len(im.F))
+		cut := map[int]bool{seed: true}
+		if rng.Intn(2) == 0 {
+			// the faces sharing a vertex with the seed's first corner: a disc-shaped patch
+			v := im.F[seed][0]
+			for fi, f := range im.F {
+				if f[0] == v || f[1] == v || f[2] == v {
+					cut[fi] = true
+				}
+			}
+		}
+		sub := im.SubsetFaces(func(fi int) bool { return !cut[fi] })
+		s := finish(rng, sub, fmt.Sprintf("genus >= 1 surface with a patch of %d faces cut out: %s", len(cut), desc), false)
+		if !s.cert.EdgeManifold || !(s.cert.MinArea > 1e-12) {
+			return nil
+		}
+		return s
 	case kind <= 4: // single closed component
 		im, desc := genClosedOne(rng, big)
 		if rng.Intn(4) == 0 {
